@@ -194,6 +194,9 @@ Fun1dLen(f, n) ==
     [] f = "conv11f" -> n + 1
     [] f = "conv121s" -> MaxI(n, 3)
     [] f = "first"   -> 1
+    \* callables that return a scalar (np.max, np.sum): the axis keeps length 1
+    [] f = "npmax"   -> 1
+    [] f = "npsum"   -> 1
 
 ConvFull(x, w) == \* full discrete convolution
   LET n == Len(x) m == Len(w)
@@ -214,6 +217,8 @@ Fun1d(f, x) ==
                              \* numpy 'same': centred, length max(n, 3)
                          IN IF n >= 3 THEN SubSeq(full, 2, n + 1) ELSE SubSeq(full, 1, 3)
     [] f = "first"   -> <<x[1]>>
+    [] f = "npmax"   -> <<RMaxSeq(x)>>
+    [] f = "npsum"   -> <<RSumSeq(x)>>
 
 \* ------------------------------------------------------ elementwise operators
 ArithOps == {"+", "-", "*", "/", "//", "%", "**", "<", "<=", ">", ">=", "==", "!="}
